@@ -304,6 +304,14 @@ func (c *Client) disconnectLocked(orderly bool) {
 	}
 }
 
+// Disarm removes a fault that has not fired yet from the current stream (the point it was armed for was
+// never reached); later responses are applied normally.
+func (c *Client) Disarm() {
+	c.mu.Lock()
+	c.fault = Fault{}
+	c.mu.Unlock()
+}
+
 // Connected reports whether the client believes its stream is up; StreamDone whether the
 // server handler has returned.
 func (c *Client) Connected() bool {
@@ -373,6 +381,13 @@ func (c *Client) applySotw(r *discovery.DiscoveryResponse) {
 		for _, a := range r.Resources {
 			c.held[t][xdsshim.ResourceName(a)] = a
 		}
+	}
+	if Trace {
+		var ns []string
+		for _, a := range r.Resources {
+			ns = append(ns, xdsshim.ResourceName(a))
+		}
+		fmt.Printf("TRACE sotw-response client=%s type=%s nonce=%s resources=%v\n", c.Name, Short(t), r.Nonce, ns)
 	}
 	warmedNow := false
 	switch t {
